@@ -87,7 +87,7 @@ func (o *UntypedRequestBinder) Bind(request *http.Request, routeParams RoutePara
 		}
 
 		if binder.validator != nil {
-			rr := binder.validator.Validate(target.Interface())
+			rr := binder.validator.Validate(plainStrings(target))
 			if rr != nil && rr.HasErrors() {
 				result = append(result, rr.AsError())
 			}
@@ -103,6 +103,23 @@ func (o *UntypedRequestBinder) Bind(request *http.Request, routeParams RoutePara
 	}
 
 	return nil
+}
+
+// plainStrings hands values of formats whose Go type has kind string (strfmt.UUID, strfmt.Email, ...) to the
+// validators as plain strings: the string validators reject any other type.
+func plainStrings(v reflect.Value) interface{} {
+	strType := reflect.TypeOf("")
+	switch {
+	case v.Kind() == reflect.String && v.Type() != strType:
+		return v.String()
+	case v.Kind() == reflect.Slice && v.Type().Elem().Kind() == reflect.String && v.Type().Elem() != strType:
+		out := make([]string, v.Len())
+		for i := range out {
+			out[i] = v.Index(i).String()
+		}
+		return out
+	}
+	return v.Interface()
 }
 
 // SetLogger allows for injecting a logger to catch debug entries.
